@@ -296,6 +296,8 @@ func (r *Runner) Go(kind string, tok int, phase string) *Call {
 			c.Val, c.Err = r.CL.CountRetry(r.ctx, tok)
 		case "block":
 			c.Val, c.Err = r.CL.Block(r.ctx, tok)
+		case "blockretry":
+			c.Val, c.Err = r.CL.BlockRetry(r.ctx, tok)
 		case "block2":
 			// the same server method through another field of the proxy struct (another generated function)
 			c.Val, c.Err = r.CL.BlockRetry(r.ctx, tok)
@@ -353,7 +355,7 @@ func (r *Runner) Verdicts(res *fw.Result, sig string, grace time.Duration) {
 	r.mu.Unlock()
 	for _, c := range calls {
 		if !c.Wait(grace) {
-			if c.Kind == "block" || c.Kind == "block2" {
+			if c.Kind == "block" || c.Kind == "block2" || c.Kind == "blockretry" {
 				continue // blocked in its handler by design; released by the scenario
 			}
 			res.Add(fw.Finding{Kind: "monitor", Signature: sig + " call never returns",
@@ -1040,6 +1042,7 @@ func closeWorkload(d *fw.Driver, res *fw.Result, seed int64, site string, nth in
 		}
 	}()
 	blocked := run.Go("block", base+10, "awaiting")
+	run.Go("blockretry", base+11, "awaiting-retry-tagged")
 	time.Sleep(2 * time.Millisecond)
 	run.E.PX.Cut(0, "rst")
 	for i := 0; i < 3; i++ {
@@ -1089,7 +1092,13 @@ func closeWorkload(d *fw.Driver, res *fw.Result, seed int64, site string, nth in
 			res.Add(fw.Finding{Kind: "monitor", Signature: sig + " foreign result", Detail: fmt.Sprintf("call %s(%d) returned %d", c.Kind, c.Tok, c.Val)})
 		}
 	}
-	// (3) a later call fails promptly
+	// (3) a later call fails promptly — a retry-tagged one too: a closed client is not a temporary outage
+	lateRetry := run.Go("retry", base+46, "after-close-retry-tagged")
+	if !lateRetry.Wait(2 * time.Second) {
+		res.Add(fw.Finding{Kind: "monitor", Signature: sig + " later retry-tagged call blocks", Detail: "a retry-tagged call issued after the closer returned did not return within 2s"})
+	} else if lateRetry.Err == nil {
+		res.Add(fw.Finding{Kind: "monitor", Signature: sig + " later call succeeds", Detail: "a retry-tagged call issued after the closer returned succeeded"})
+	}
 	late := run.Go("count", base+45, "after-close")
 	if !late.Wait(2 * time.Second) {
 		res.Add(fw.Finding{Kind: "monitor", Signature: sig + " later call blocks", Detail: "a call issued after the closer returned did not return within 2s"})
